@@ -556,7 +556,7 @@ Notes:
         # apply penalty
        #trialEnergy = map(self._penalty, self.trialSolution)#,**self._mapconfig)
         # calculate cost
-        trialEnergy = self._map(cost, self.trialSolution, **self._mapconfig)
+        trialEnergy = list(self._map(cost, self.trialSolution, **self._mapconfig))
 
         # each trialEnergy should be a scalar
         if isiterable(trialEnergy[0]) and len(trialEnergy[0]) == 1:
